@@ -34,6 +34,21 @@ def connector_map(table):
     return mp
 
 
+def physical_pins(table):
+    """names that are physical pins of the platform described by the table: targets of connectors that are not mounted
+    on another connector, and names used directly (no connector) by a resource"""
+    phys = set()
+    for c in table.get("connectors", []):
+        if not c.get("conn"):
+            phys.update(t for t in (c["io"].split() if isinstance(c["io"], str) else c["io"].values()) if t != "-")
+    for r in table["resources"]:
+        for _path, leaf in leaves(r["node"]):
+            if not leaf.get("conn"):
+                names = leaf["names"] if leaf["kind"] == "pins" else leaf["p"] + leaf["n"]
+                phys.update(n for n in names if ":" not in n)
+    return phys
+
+
 def resolve_name(name, cmap):
     """follow connector-relative names until a physical pin is reached; None if the chain dangles"""
     hops = 0
@@ -118,12 +133,14 @@ class RefAlloc:
         cmap = connector_map(table)
         res = {(r["name"], r["number"]): r for r in table["resources"]}
         pins = {}
+        self_check = physical_pins(table)
         for k, r in res.items():
             lst = []
             for _path, leaf in leaves(r["node"]):
                 for half in leaf_pins(leaf, cmap).values():
                     lst += half
             pins[k] = lst
+            assert all(p is None or p in self_check for p in lst), "reference: resolved name is not a physical pin"
         return cmap, res, pins
 
     def key(self):
